@@ -107,7 +107,23 @@ func isFatal(fn *types.Func) bool {
 }
 
 // evalCall evaluates a call; returns its result values (nWant is advisory).
+// evalCall evaluates a call; `option retlog f g ..` of the function under contract records the last result of
+// every call to a callee named f (written in the function under contract itself) in the ghost variable retlog_f.
 func (fr *Frame) evalCall(st *State, call *ast.CallExpr, nWant int) []*Term {
+	rs := fr.evalCall0(st, call, nWant)
+	if fr == fr.top && fr.fc != nil && fr.fc.Options["retlog"] != "" && len(rs) > 0 {
+		if fn := fr.e.staticCallee(fr.info, call); fn != nil {
+			for _, n := range strings.Fields(fr.fc.Options["retlog"]) {
+				if n == fn.Name() {
+					st.heap["ghost:retlog_"+n] = rs[len(rs)-1]
+				}
+			}
+		}
+	}
+	return rs
+}
+
+func (fr *Frame) evalCall0(st *State, call *ast.CallExpr, nWant int) []*Term {
 	e := fr.e
 	info := fr.info
 	// conversion?
